@@ -101,9 +101,9 @@ def u1_layouts(src, assignor, max_members, ntopics, max_parts):
             # a member that missed a generation re-joins with stale (older-generation) user data
             sr = A.stale_rejoin(src, parts, subs, res)
             if sr is not None:
-                absent, s2, r2, r3 = sr
-                A.check_validity(src, "sticky", parts, subs, r3, tag="stale re-join: ")
-                A.check_balance(src, "sticky", parts, subs, r3, tag="stale re-join: ")
+                absent, s2, r2, r3, s3 = sr
+                A.check_validity(src, "sticky", parts, s3, r3, tag="stale re-join: ")
+                A.check_balance(src, "sticky", parts, s3, r3, tag="stale re-join: ")
 
 
 def harnesses(tier):
